@@ -127,6 +127,177 @@ def cases_for(prop, tier, roots, rng):
     return cases
 
 
+
+# --------------------------------------------------------------------------- spec -> implementation material
+def casegen(wd, fens, tag="cg"):
+    """TLC (CaseGen.tla) computes, per position: legal moves, illegal pseudo-legal moves, SAN of every legal
+    move and random legal lines.  Sharded over JVMs."""
+    fens = list(dict.fromkeys(fens))
+    if not fens:
+        return {}
+    n = min(NCPU, max(1, len(fens) // 8))
+    parts = [fens[i::n] for i in range(n)]
+
+    def one(i):
+        rp = os.path.join(wd, "%s_roots_%d.ndjson" % (tag, i))
+        op = os.path.join(wd, "%s_out_%d.json" % (tag, i))
+        with open(rp, "w") as f:
+            for x in parts[i]:
+                f.write(json.dumps({"fen": x}) + "\n")
+        swd = os.path.join(wd, "%s_tlc_%d" % (tag, i))
+        os.makedirs(swd, exist_ok=True)
+        info = run_tlc(os.path.join(SPEC, "CaseGen.tla"), os.path.join(SPEC, "CaseGen.cfg"), swd,
+                       env={"ROOTS": rp, "OUT": op}, timeout=1800, extra=["-seed", str(seed() + i)])
+        if info["rc"] != 0 or not os.path.exists(op):
+            raise ToolError("CaseGen failed:\n" + info["out"][-2000:])
+        return json.load(open(op)), info
+
+    out = {}
+    infos = []
+    for rows, info in pmap(one, list(range(n))):
+        infos.append(info)
+        for r in rows:
+            out[r["fen"]] = r
+    return out, infos
+
+
+FILES = "abcdefgh"
+
+
+def like_piece_fens(rng, n):
+    """candidate positions with 2-4 like pieces able to reach common squares, some of them pinned; TLC keeps
+    the well-formed ones (CaseGen's wf flag), so no chess judgement is made here"""
+    out = []
+    for _ in range(n):
+        white = rng.random() < 0.5
+        kind = rng.choice("NNNRRQQB")
+        k = rng.choice([2, 2, 3, 3, 4])
+        sqs = rng.sample(range(64), k + 2 + rng.choice([0, 1, 2]))
+        board = {}
+        board[sqs[0]] = "K"
+        board[sqs[1]] = "k"
+        for q in sqs[2:2 + k]:
+            board[q] = kind if white else kind.lower()
+        for q in sqs[2 + k:]:
+            board[q] = rng.choice("rbq" if white else "RBQ")   # enemy sliders: pins
+        out.append(board_to_fen(board, "w" if white else "b"))
+    # three candidate pawns for one promotion square, and promotions with capture
+    for _ in range(max(2, n // 10)):
+        f = rng.randrange(1, 7)
+        white = rng.random() < 0.5
+        board = {}
+        r7, r8 = (6, 7) if white else (1, 0)
+        for df in (-1, 0, 1):
+            board[r7 * 8 + f + df] = "P" if white else "p"
+        tgt = rng.choice("nbrq")
+        board[r8 * 8 + f - 1] = tgt.lower() if white else tgt.upper()
+        board[r8 * 8 + f + 1] = tgt.lower() if white else tgt.upper()
+        ks = [q for q in range(16, 48) if q not in board]
+        a, b = rng.sample(ks, 2)
+        board[a], board[b] = "K", "k"
+        out.append(board_to_fen(board, "w" if white else "b"))
+    return out
+
+
+def board_to_fen(board, stm):
+    rows = []
+    for r in range(7, -1, -1):
+        row, run = "", 0
+        for f in range(8):
+            p = board.get(r * 8 + f)
+            if p:
+                row += (str(run) if run else "") + p
+                run = 0
+            else:
+                run += 1
+        rows.append(row + (str(run) if run else ""))
+    return "/".join(rows) + " %s - - 0 1" % stm
+
+
+def uci_mutations(rng, legal, illegal):
+    out = set()
+    for u in rng.sample(legal, min(len(legal), 6)):
+        out.update([u, " " + u + " ", u + " ", "\t" + u, u + "q", u[:4], u[:4] + "k", u.upper(), u[:3], u + "qq",
+                    u[2:4] + u[0:2], u[:4] + "Q"])
+    out.update(illegal)
+    out.update(["", " ", "e2e9", "i2i4", "é2e4", "e2 e4", "0000", "e2e4e5", "a1a1", "h8h9q", "O-O", "e7e8=Q"])
+    return sorted(out)
+
+
+def san_mutations(rng, sans, foreign):
+    out = set()
+    for u, s in rng.sample(sans, min(len(sans), 8)):
+        core = s.rstrip("+#")
+        out.update([s, core, core + "+", core + "#", s + "!", s + "?!", s + "!!", core.replace("x", ""), core.lower(),
+                    core.replace("O", "0"), core.replace("=", ""), core + "=K", " " + s, s + " "])
+        if core[0] in "NBRQK" and len(core) >= 3:
+            out.update([core[0] + f + core[1:] for f in rng.sample(FILES, 2)])
+            out.update([core[0] + r + core[1:] for r in rng.sample("12345678", 2)])
+            out.add(core[0] + core[2:] if len(core) > 3 else core)
+    out.update(rng.sample(foreign, min(len(foreign), 10)))
+    out.update(["", "x", "Ke", "e9", "Zf3", "O-O-O-O", "exd", "=Q", "e8=", "N", "♞f3"])
+    return sorted(out)
+
+
+def text_cases(prop, tier, roots, rng, wd):
+    T = tier == "thorough"
+    sample = rng.sample(roots, min(len(roots), 80 if T else 24))
+    fens = [r["fen"] for r in sample]
+    if prop == "C14":
+        fens += like_piece_fens(rng, 400 if T else 60)
+    gen, infos = casegen(wd, fens)
+    all_sans = [s for g in gen.values() for _, s in g["sans"]]
+    cases = []
+
+    def add(fen, ops, why):
+        cases.append({"id": len(cases) + 1, "family": "board", "prop": prop, "fen": fen, "ops": ops, "why": why})
+
+    for fen in fens:
+        g = gen[fen]
+        if not g["wf"]:
+            continue
+        legal, illegal, sans, lines = g["legal"], g["illegal"], [tuple(x) for x in g["sans"]], g["lines"]
+        if prop == "C13":
+            muts = uci_mutations(rng, legal, illegal)
+            ops = [{"op": "find_uci", "s": x} for x in muts]
+            ops += [{"op": "uci_to_pgn", "s": x} for x in rng.sample(muts, min(len(muts), 12)) + illegal]
+            ops += [{"op": "pgn_to_bb", "s": x} for x in san_mutations(rng, sans, all_sans)[:25]]
+            ops += [{"op": "make_uci", "s": x} for x in illegal + rng.sample(muts, min(len(muts), 6))]
+            add(fen, ops, "single calls: legal, illegal pseudo-legal and malformed strings, repeated on one board")
+            # all-or-nothing lists: the error at every index
+            bads = illegal + ["zz", "", "e2e9"] + ([rng.choice(legal) + "q"] if legal else [])
+            ops = []
+            for line in lines:
+                for i in range(len(line) + 1):
+                    lst = list(line[:i]) + [rng.choice(bads)] + list(line[i:])
+                    ops.append({"op": "make_all_uci", "list": lst})
+                    ops.append({"op": "gen"})
+            if lines and lines[-1]:
+                ops.append({"op": "make_all_uci", "list": list(lines[1])})
+                ops.append({"op": "gen"})
+                ops.append({"op": "make_all_uci", "list": ["a1a1"]})
+                ops.append({"op": "make_uci", "s": "zz"})
+                ops.append({"op": "gen"})
+            add(fen, ops, "make_all_uci with the rejected move at every index, then a good list")
+        else:
+            ops = [{"op": "san_all"}]
+            ops += [{"op": "pgn_to_bb", "s": x} for x in san_mutations(rng, sans, all_sans)]
+            ops += [{"op": "uci_to_pgn", "s": x} for x in rng.sample(legal, min(len(legal), 5)) + illegal[:3]]
+            add(fen, ops, "SAN of every legal move, parse-back, and strings that denote nothing / are ambiguous")
+    if prop == "C13":
+        for r in rng.sample(roots, min(len(roots), 40 if T else 10)):
+            add(r["fen"], [{"op": "uci_batch"}, {"op": "gen"}], "all 64x64x6 move strings")
+    else:
+        for r in (roots if T else rng.sample(roots, min(len(roots), 36))):
+            add(r["fen"], [{"op": "dfs", "depth": 1, "mode": "san"}], "SAN at the root and after every move")
+        for r in rng.sample(roots, min(len(roots), 40 if T else 8)):
+            add(r["fen"], [{"op": "walk", "plies": 150 if T else 60, "seed": rng.randrange(1 << 30), "mode": "san"}], "SAN along a random game")
+        for r in [r for r in roots if "ending" in r["tags"]]:
+            for _ in range(8 if T else 2):
+                add(r["fen"], [{"op": "walk", "plies": 120 if T else 60, "seed": rng.randrange(1 << 30), "mode": "san"}], "SAN into mates and stalemates")
+    return cases, infos
+
+
 def case_weight(c):
     w = 0
     for op in c["ops"]:
@@ -139,6 +310,8 @@ def case_weight(c):
             w += 35 ** op["depth"]
         elif k == "uci_batch":
             w += 50
+        elif k in ("san_all", "pgn_to_bb", "uci_to_pgn"):
+            w += 4
         else:
             w += 1
     return w
@@ -185,7 +358,12 @@ def summarize(prop, tier, cases, results, t0, outcome, matcher, level, rule, ass
                 evals += 1
         for i in res.get("ntr", []):
             e = evs[i - 1]
-            nt_keys.add(e.get("snap", {}).get("fen", str(i)))
+            if e["ev"] not in EVAL_EVENTS.get(prop, ()):
+                continue
+            arg = e.get("s", None)
+            if arg is None and "list" in e:
+                arg = " ".join(e["list"])
+            nt_keys.add(e.get("snap", {}).get("fen", str(i)) + ("" if arg is None else "|" + arg))
         for k in res.get("ntk", []):
             nt_keys.add(k)
         for note in res["bad"]:
@@ -213,6 +391,13 @@ def summarize(prop, tier, cases, results, t0, outcome, matcher, level, rule, ass
     return rc
 
 
+TEXT_RULE = ("cases = call scripts on one board: TLC (CaseGen.tla) supplies per position the legal moves, the illegal pseudo-legal moves, "
+             "the standard SAN of every legal move and random legal lines; strings are those plus mechanical mutations and strings taken "
+             "from other positions; every call is one TLC step of BoardTrace that classifies the argument (must accept / must reject / "
+             "don't care) and compares result and full state snapshot. evaluations = calls; distinct_nontrivial = distinct (position, "
+             "argument) pairs that TLC classified as decisive: for C13 the call must be rejected (or the list contains a rejected move, or the "
+             "event enumerates all 64x64x6 strings); for C14 the string must be accepted or must be rejected (never don't-care), or the "
+             "position has a legal move whose SAN needs a disambiguator, check/mate suffix, promotion or castling")
 BOARD_RULE = ("cases = operation scripts (dfs to a depth over every move the generator emits, random legal games, lines made and "
               "unmade, clock sweeps) from the TLC-checked root corpus and its colour-flipped twins; every harness event "
               "(load/gen/make/unmake/...) is one TLC step of BoardTrace. evaluations = events whose oracle belongs to this "
@@ -235,9 +420,14 @@ def check_board_prop(prop, tier, replay=None):
         cases = [c]
     else:
         roots = corpus(wd)
-        cases = cases_for(prop, tier, roots, rng)
+        if prop in ("C13", "C14"):
+            cases, _ = text_cases(prop, tier, roots, rng, wd)
+        else:
+            cases = cases_for(prop, tier, roots, rng)
     log("%s: %d cases" % (prop, len(cases)))
     shards, results = run_board_cases(prop, cases, wd, keys)
     outcome = Outcome(prop)
     from findings import matcher_for
-    return summarize(prop, tier, cases, results, t0, outcome, matcher_for(prop), "model_checking", BOARD_RULE, BOARD_ASSUME)
+    text = prop in ("C13", "C14")
+    return summarize(prop, tier, cases, results, t0, outcome, matcher_for(prop), "model_checking",
+                     TEXT_RULE if text else BOARD_RULE, BOARD_ASSUME)
